@@ -33,3 +33,19 @@ let () = register "lim" (fun args -> match args with
         (string_of_z vm_check_cycles) (string_of_z block_check_modulus) (string_of_z cfg_default_stack_size)
         (string_of_z cfg_default_max_strings_per_rule) (string_of_z cfg_default_max_match_data)
   | _ -> "usage")
+
+(* reemit <tokens of an s-expression>:  lit | any | cls | ( cat A B ) | ( rep n A ) | ( alt A B ) | ( star A ) | ( plus A )
+   | ( range lo hi A ) | rangeany      -> "size=N fits=<spec> ok=<generated tests> wf=<bool>" *)
+let rec rx_parse (ts : string list) = match ts with
+  | "lit" :: r -> (EmLit, r) | "any" :: r -> (EmAny, r) | "cls" :: r -> (EmClass, r) | "rangeany" :: r -> (EmRangeAny, r)
+  | "(" :: "cat" :: r -> let (a, r) = rx_parse r in let (b, r) = rx_parse r in (EmCat (a, b), rx_close r)
+  | "(" :: "alt" :: r -> let (a, r) = rx_parse r in let (b, r) = rx_parse r in (EmAlt (a, b), rx_close r)
+  | "(" :: "rep" :: n :: r -> let (a, r) = rx_parse r in (EmRep (z_of_string n, a), rx_close r)
+  | "(" :: "star" :: r -> let (a, r) = rx_parse r in (EmStar a, rx_close r)
+  | "(" :: "plus" :: r -> let (a, r) = rx_parse r in (EmPlus a, rx_close r)
+  | "(" :: "range" :: lo :: hi :: r -> let (a, r) = rx_parse r in (EmRange (z_of_string lo, z_of_string hi, a), rx_close r)
+  | t :: _ -> failwith ("rx: " ^ t) | [] -> failwith "rx: eof"
+and rx_close = function ")" :: r -> r | _ -> failwith "rx: expected )"
+let () = register "reemit" (fun args ->
+  let (r, _) = rx_parse args in
+  Printf.sprintf "size=%s fits=%b ok=%b wf=%b" (string_of_z (em_size r)) (em_fits r) (em_ok r) (em_wf r))
